@@ -206,3 +206,25 @@ Definition SignedMin2_m (mid : mid_policy) (w wr a b : Z) : Z := Mux2_m wr (su_g
 
 (* Swap (relational.py:610-611) *)
 Definition Swap_m (wra wrb a b swap : Z) : Z * Z := (Mux2_m wra swap a b, Mux2_m wrb swap b a).
+
+(* ---- per-input widths.  The n-ary blocks whose internal wires take the width of EACH input (not only of r) are modelled over
+   (width, value) items; the uniform-width models above are the instances `map (pair wi) ins` (proved in Proofs/C08/Mixed.v).
+   And / Or / Mux / SelectDefault / Mux2 / Swap only look at r's width: their models above already cover inputs of any widths. *)
+(* Xor ladder: Xor2(in0, in1) then Xor2(aux, in_i), aux and r of width w *)
+Definition XorW_m (mid : mid_policy) (w : Z) (ins : list (Z * Z)) : Z :=
+  match ins with
+  | (wa, a) :: (wb, b) :: rest => fold_left (fun acc p => Xor2_m mid w (fst p) w acc (snd p)) rest (Xor2_m mid wa wb w a b)
+  | _ => 0
+  end.
+(* Select / OneHotMux: selx_i and and_sel_i have input i's width *)
+Definition OneHotMuxW_m (wr : Z) (sels : list Z) (ins : list (Z * Z)) : Z :=
+  Or_m wr (map (fun p => And2_m (fst (snd p)) (Repeat_m (fst (snd p)) (fst p)) (snd (snd p))) (combine sels ins)).
+(* OneHotDemux: out_i has its own width *)
+Definition OneHotDemuxW_m (wa : Z) (wos : list Z) (a : Z) (sels : list Z) : list Z :=
+  map (fun p => And2_m (fst p) (Repeat_m wa (snd p)) a) (combine wos sels).
+(* AnyEqual: Equal(in_i, in_j) on the two inputs' own widths *)
+Definition AnyEqualW_m (mid : mid_policy) (eqw : eq_policy) (wr : Z) (ins : list (Z * Z)) : Z :=
+  let n := length ins in
+  Or_m wr (flat_map (fun i => flat_map (fun j =>
+             if Nat.eqb i j then [] else [Equal_m mid eqw (fst (nth i ins (0, 0))) (fst (nth j ins (0, 0)))
+                                                   (snd (nth i ins (0, 0))) (snd (nth j ins (0, 0)))]) (seq 0 n)) (seq 0 n)).
